@@ -129,6 +129,9 @@ type FnCtx struct {
 	ptrReads    []ptrRead
 	globalReads []*Cell
 	globalSeen  map[*Cell]bool
+	curPos      token.Pos
+	entryMeasure *Term
+	retCovers    []*Obligation
 }
 
 type writeLog struct {
@@ -149,8 +152,18 @@ func (c *FnCtx) addFact(st *State, f *Term) {
 	if g.IsTrue() {
 		return
 	}
-	c.facts = append(c.facts, g)
+	c.facts = append(c.facts, c.closeFact(g))
 	c.triggers = append(c.triggers, nil)
+}
+
+// closeFact universally closes a fact over bound variables that occur free in it (facts generated while a
+// quantifier body is being evaluated hold for every value of the bound variable).
+func (c *FnCtx) closeFact(g *Term) *Term {
+	ts := c.eng.ts
+	for _, bv := range ts.FreeBoundVars(g) {
+		g = ts.Quant("forall", bv, g)
+	}
+	return g
 }
 
 // addFactT adds a fact that only matters when term trig occurs in the goal or in another relevant fact
@@ -161,7 +174,10 @@ func (c *FnCtx) addFactT(st *State, trig, f *Term) {
 	if g.IsTrue() {
 		return
 	}
-	c.facts = append(c.facts, g)
+	if len(c.eng.ts.FreeBoundVars(trig)) > 0 {
+		trig = nil
+	}
+	c.facts = append(c.facts, c.closeFact(g))
 	c.triggers = append(c.triggers, trig)
 }
 
@@ -198,6 +214,15 @@ func (c *FnCtx) addFactNth(st *State, seq, f *Term) {
 		}
 		c.trigNth[n] = true
 	}
+}
+
+// assumeChecked: a condition that has just been emitted as an obligation may be assumed afterwards.
+// When obligations are suppressed (ghost evaluation) nothing justifies the assumption, so it is not made.
+func (c *FnCtx) assumeChecked(st *State, f *Term) {
+	if c.noObl > 0 {
+		return
+	}
+	c.addFact(st, f)
 }
 
 // ---- state accessors ----
@@ -383,7 +408,7 @@ func (c *FnCtx) frameFacts(h, idx *Term) {
 					conds = append(conds, ts.Not(ts.Eq(idx, e)))
 				}
 				f := ts.Implies(ts.And(conds...), ts.Eq(ts.Select(t, idx), ts.Select(li.old, idx)))
-				c.facts = append(c.facts, f)
+				c.facts = append(c.facts, c.closeFact(f))
 				c.triggers = append(c.triggers, nil)
 			}
 			walk(li.old)
